@@ -304,4 +304,4 @@ func pmCorpus(t *tr.Trace) {
 	}
 }
 
-func init() { register("pmap", runPmap) }
+func main() { tr.Main(runPmap) }
